@@ -158,6 +158,15 @@ def dispatchC13 : List Str → Option (List Str)
         some ["ok".toList, joinSep ',' (d.map fun (k, l) => showLabel k l),
               joinSep ',' (d.map fun (k, _) => showLabel k (compOfLoop k cs 0 []))]
       | _ => some ["bad-request".toList]
+    else if cmd == "c13.proclabel".toList then
+      -- c13.proclabel <show_proc_parent 0|1> <has parent 0|1> <has binder 0|1> <name> <parent> <binder>
+      -- -> the label `ProcNode.__init__` gives the node
+      match args with
+      | sp :: hp :: hb :: name :: parent :: binder :: _ =>
+        some ["ok".toList, procLabel (sp == ['1'])
+          { name := name, parent := if hp == ['1'] then some parent else none,
+            binder := if hb == ['1'] then some binder else none }]
+      | _ => some ["bad-request".toList]
     else none
   | [] => none
 
